@@ -14,6 +14,7 @@ import (
 	"github.com/orda-io/orda/client/pkg/errors"
 	"github.com/orda-io/orda/client/pkg/iface"
 	"github.com/orda-io/orda/client/pkg/model"
+	"github.com/orda-io/orda/client/pkg/vf"
 	"github.com/orda-io/orda/server/constants"
 	"github.com/orda-io/orda/server/schema"
 )
@@ -57,6 +58,7 @@ type MongoCollections struct {
 	Commands  int    // number of repository commands issued so far
 	FailAt    int    // 1-based index of the command the fault hits (0 = never)
 	FaultMode int    // FaultError / FaultDie
+	SlowAt    int    // native demonstrations only: this command takes 6 s
 	Dead      bool   // the server process is gone: nothing it still attempts reaches the database
 	Fired     string // name of the command the fault hit
 	Trace     []string
@@ -79,8 +81,12 @@ func New(ctx iface.OrdaContext, conf *Config) (*RepositoryMongo, errors.OrdaErro
 // begin numbers a command and applies the fault plan: it returns an error when
 // the command must fail, and a function to call after the command's effect.
 func (its *MongoCollections) begin(ctx iface.OrdaContext, name string) (errors.OrdaError, func()) {
+	vf.Yield() // a database round trip is a scheduling point
 	its.Commands++
 	n := its.Commands
+	if n == its.SlowAt {
+		vf.Slow()
+	}
 	its.Trace = append(its.Trace, name)
 	if its.Dead {
 		return errors.ServerDBQuery.New(ctx.L(), "server process is gone"), func() {}
